@@ -249,6 +249,11 @@ def pointwise_global_reconstruction_distortion(
         .predict(X_test)
     )
 
+    # the orthogonal regression zero-pads source and target to the larger of the two
+    # feature dimensions, the linear predictions have to be padded in the same way
+    n_pad = orthogonal_predictions_Y_test.shape[1] - predictions_Y_test.shape[1]
+    predictions_Y_test = np.pad(predictions_Y_test, [(0, 0), (0, n_pad)])
+
     return np.linalg.norm(predictions_Y_test - orthogonal_predictions_Y_test, axis=1)
 
 
